@@ -9,6 +9,7 @@ package resolver
 import (
 	"encoding/json"
 	"fmt"
+	"strings"
 	"testing"
 	"time"
 
@@ -164,6 +165,36 @@ func TestVerifC09Hist(t *testing.T) {
 		maxDepth = 7
 	}
 	vkC09BFS(c, vkC09Events(c.Thorough()), maxDepth, true)
+	vkC09Finish(c)
+}
+
+// TestVerifC09Carry: the same history search (shallower) in a key universe whose K1 and K2 have key
+// tags that do not move by exactly 128 under the REVOKE bit (see vkC09CarryMode). Same oracle, same keys.
+func TestVerifC09Carry(t *testing.T) {
+	vkC09CarryMode = true
+	c := vkit.Init("C09/carry")
+	defer c.Close()
+	if _, err := vkC09StartRoot(); err != nil {
+		c.HarnessError("cannot start the scripted root: " + err.Error())
+		return
+	}
+	if c.Replay != nil {
+		vkC09DoReplay(c)
+		return
+	}
+	var evs []vkC09Ev
+	for _, ev := range vkC09Events(c.Thorough()) {
+		// tag-collision publications need a colliding K3, which this universe does not have
+		if ev.Kind == "ref" && strings.Contains(ev.Pub, "coll") || strings.Contains(ev.Pub, "shadow") || ev.Pub == "k2k3" {
+			continue
+		}
+		evs = append(evs, ev)
+	}
+	maxDepth := 3
+	if c.Thorough() {
+		maxDepth = 5
+	}
+	vkC09BFS(c, evs, maxDepth, true)
 	vkC09Finish(c)
 }
 
